@@ -825,6 +825,15 @@ pub fn run(ctx: &Ctx) -> Report {
         report.cov("F12_programs", json!(n));
         report.violations.extend(st.violations);
     }
+    // closures made by a function that escaped from a module whose import was abandoned (C14's family): the
+    // variables they capture by name are that module's globals
+    {
+        let cases = crate::c14::escaped_functions_of_abandoned_imports();
+        let n = cases.len();
+        let st = crate::expect::run_expect(ctx, &ctx.runner_checked, cases.into_iter(), &|_e, _r| None, &|_e, _p| None);
+        report.cov("closures_of_functions_escaped_from_abandoned_imports", json!(n));
+        report.violations.extend(st.violations);
+    }
     // closures at the compiler's limits (C04's limit family): functions that capture 254..257 variables over
     // one and two function levels, and that declare as many locals as are allowed by each declaring form,
     // see every one of them - or the program is rejected
